@@ -13,7 +13,7 @@
 (***************************************************************************)
 EXTENDS SasLexer
 
-TokCoreM(t) == <<t.ty, t.ch, t.c, t.pk, t.ps, t.pe>>
+TokCoreM(t) == <<t.ty, t.ch, t.c, t.l + 1, t.pk, t.ps, t.pe>>
 ErrCoreM(e) == <<e.k, e.c, e.lt>>
 
 \* the fields in which the model state S1 (reached from S by one step) differs from event e
@@ -33,7 +33,7 @@ StepDiffs(S, S1, e) ==
   (IF /\ nt = fc + Len(e.tt)
       /\ fc <= Len(S.toks)
       /\ SubSeq(S1.toks, 1, fc) = SubSeq(S.toks, 1, fc)
-      /\ \A j \in 1..Len(e.tt) : TokCoreM(S1.toks[fc + j]) = <<e.tt[j].ty, e.tt[j].ch, e.tt[j].c, e.tt[j].pk, e.tt[j].ps, e.tt[j].pe>>
+      /\ \A j \in 1..Len(e.tt) : TokCoreM(S1.toks[fc + j]) = <<e.tt[j].ty, e.tt[j].ch, e.tt[j].c, e.tt[j].l, e.tt[j].pk, e.tt[j].ps, e.tt[j].pe>>
      THEN {} ELSE {"tokens"}) \cup
   \* integer payloads (resolve depth of MacroVarResolve, value of an error-free integer literal) where the model has them
   (IF nt = fc + Len(e.tt) => \A j \in 1..Len(e.tt) : S1.toks[fc + j].pi \in {<<>>, e.tt[j].pi}
@@ -51,12 +51,12 @@ Adopt(S, e) ==
   LET k == e.cfg.ck
       lkeep == IF e.lb < e.la THEN e.lb ELSE e.la
   IN [S EXCEPT
-        !.pos = e.ca, !.ts = e.ca, !.modes = e.cfg.modes,
-        !.ck = [set |-> k.set, pos |-> k.c, ts |-> k.c, ml |-> k.ml, nt |-> k.nt, nl |-> k.nl, ns |-> k.ns],
+        !.pos = e.ca, !.ts = e.ca, !.tl = e.la - 1, !.modes = e.cfg.modes,
+        !.ck = [set |-> k.set, pos |-> k.c, ts |-> k.c, tl |-> k.nl - 1, ml |-> k.ml, nt |-> k.nt, nl |-> k.nl, ns |-> k.ns],
         !.nlit = e.nl,
         !.pend = e.cfg.pend, !.nest = e.cfg.nest, !.ops = e.ops, !.fault = "",
         !.toks = SubSeq(S.toks, 1, IF e.fc < Len(S.toks) THEN e.fc ELSE Len(S.toks))
-                 \o [j \in 1..Len(e.tt) |-> [ty |-> e.tt[j].ty, ch |-> e.tt[j].ch, c |-> e.tt[j].c,
+                 \o [j \in 1..Len(e.tt) |-> [ty |-> e.tt[j].ty, ch |-> e.tt[j].ch, c |-> e.tt[j].c, l |-> e.tt[j].l - 1,
                                               pk |-> e.tt[j].pk, ps |-> e.tt[j].ps, pe |-> e.tt[j].pe, pi |-> e.tt[j].pi]],
         !.lines = SubSeq(S.lines, 1, IF lkeep < Len(S.lines) THEN lkeep ELSE Len(S.lines))
                   \o [j \in 1..Len(e.lt) |-> e.lt[j][2]],
@@ -107,7 +107,7 @@ ModelRec(r) ==
       n == Len(F.toks)
       endc(i) == IF i < n THEN F.toks[i+1].c ELSE F.toks[i].c
       tk(i) == [i |-> i - 1, ty |-> F.toks[i].ty, ch |-> F.toks[i].ch,
-                c |-> F.toks[i].c, ec |-> endc(i), b |-> r.cb[F.toks[i].c + 1], eb |-> r.cb[endc(i) + 1],
+                c |-> F.toks[i].c, ec |-> endc(i), l |-> F.toks[i].l + 1, b |-> r.cb[F.toks[i].c + 1], eb |-> r.cb[endc(i) + 1],
                 pk |-> F.toks[i].pk, ps |-> F.toks[i].ps, pe |-> F.toks[i].pe, pi |-> F.toks[i].pi,
                 pis |-> IF F.toks[i].ty = "MacroVarResolve" /\ F.toks[i].pi # <<>>
                           THEN ToString(IF Len(F.toks[i].pi) = 2 THEN 10 * F.toks[i].pi[1] + F.toks[i].pi[2] ELSE F.toks[i].pi[1])
@@ -122,7 +122,7 @@ M_same_toks(r) ==
   LET m == ModelRec(r) IN
   IF Len(m.toks) # Len(r.toks) THEN {0 - 1}
   ELSE {i \in 1..Len(r.toks) :
-          \/ m.toks[i].ty # r.toks[i].ty \/ m.toks[i].ch # r.toks[i].ch \/ m.toks[i].c # r.toks[i].c
+          \/ m.toks[i].ty # r.toks[i].ty \/ m.toks[i].ch # r.toks[i].ch \/ m.toks[i].c # r.toks[i].c \/ m.toks[i].l # r.toks[i].l
           \/ m.toks[i].pk # r.toks[i].pk
           \/ (r.toks[i].pk = "s" /\ (m.toks[i].ps # r.toks[i].ps \/ m.toks[i].pe # r.toks[i].pe))
           \/ (r.toks[i].pk = "i" /\ m.toks[i].pi # <<>> /\ m.toks[i].pi # r.toks[i].pi)}
